@@ -927,6 +927,73 @@ func debFreeProp(c DebFreeCase, r *pbt.R) error {
 	return nil
 }
 
+// ===========================================================================
+// Debounce with a wait that is not positive: the timer is due at once, the rules stay
+
+// DebZeroCase: Rounds times (call; cancel at once) on one debouncer whose wait is 0, -1ms or the most negative Duration,
+// under the real scheduler; then one call that nothing follows.
+type DebZeroCase struct {
+	Wait   int `json:"wait"`
+	Rounds int `json:"rounds"`
+}
+
+var debZeroWaits = []time.Duration{0, -1 * ms, time.Duration(math.MinInt64)}
+
+func debZeroProp(c DebZeroCase, r *pbt.R) error {
+	w := debZeroWaits[((c.Wait%3)+3)%3]
+	rounds := 1 + ((c.Rounds-1)%1000+1000)%1000
+	deb, cancel := gogu.NewDebounce(w)
+	var seq atomic.Int64 // one stamp per observed event, in the order in which they were observed
+	started := make([]atomic.Int64, rounds+1)
+	runs := make([]atomic.Int32, rounds+1)
+	cancelled := make([]int64, rounds)
+	for i := 0; i < rounds; i++ {
+		i := i
+		deb(func() {
+			started[i].CompareAndSwap(0, seq.Add(1))
+			runs[i].Add(1)
+		})
+		cancel()
+		cancelled[i] = seq.Add(1)
+		if i%8 == 7 {
+			time.Sleep(20 * time.Microsecond) // let pending timer goroutines run
+		}
+	}
+	time.Sleep(2 * ms)
+	deb(func() {
+		started[rounds].CompareAndSwap(0, seq.Add(1))
+		runs[rounds].Add(1)
+	})
+	deadline := time.Now().Add(10 * time.Second)
+	for runs[rounds].Load() == 0 && time.Now().Before(deadline) {
+		time.Sleep(200 * time.Microsecond)
+	}
+	time.Sleep(2 * ms)
+	desc := fmt.Sprintf("debounce(wait %v): %d times (call; cancel), then one call that nothing follows", w, rounds)
+	after := 0
+	for i := 0; i < rounds; i++ {
+		if n := runs[i].Load(); n > 1 {
+			return fmt.Errorf("%s: the function of call %d ran %d times", desc, i, n)
+		}
+		if st := started[i].Load(); st > cancelled[i] {
+			after++
+		}
+	}
+	if n := runs[rounds].Load(); n != 1 {
+		return fmt.Errorf("%s: the function of the last call ran %d times within 10s, want once (no call or cancel followed it)", desc, n)
+	}
+	// A thread descheduled between "commit to run" and the function's first instruction gives an isolated event of this kind
+	// in a correct debouncer too (see debounce-free); a tenth of all rounds is not that.
+	if after >= 3 && after*10 >= rounds {
+		return fmt.Errorf("%s: %d of the %d cancelled functions started AFTER cancel had returned: a cancelled debounced function must not run at all", desc, after, rounds)
+	}
+	if after > 0 {
+		r.Label("isolated start after cancel returned (tolerated)")
+	}
+	r.NonTrivialIf(true, "every case")
+	return nil
+}
+
 func TestProp(t *testing.T) {
 	pbt.Run(t, "C20",
 		&pbt.Check[DelayCase]{
@@ -971,6 +1038,22 @@ func TestProp(t *testing.T) {
 				"Non-trivial = some functions ran and some were superseded.",
 			Gen: debFreeGen, Prop: debFreeProp, OutOfEnum: func(DebFreeCase, bool) bool { return true },
 			RapidQuick: 3, RapidThorough: 30,
+		},
+		&pbt.Check[DebZeroCase]{
+			Name: "debounce-nowait",
+			Rule: "a debouncer whose wait is 0, -1ms or the most negative Duration (the timer is due at once; the rules about cancel and about running stay), real scheduler: 50..400 (thorough 1000) times (call; cancel at once), then one call that nothing follows. " +
+				"Asserted with one global sequence counter (a stamp when cancel has returned, a stamp first thing in a function): no function runs twice; the last call's function runs exactly once; the functions of cancelled calls do not start after their cancel returned - " +
+				"isolated events are tolerated (a thread can be descheduled between the decision to run and the function's first instruction), a tenth of the rounds or more is a violation. Non-trivial = every case.",
+			Gen: func(s pbt.Src, thorough bool) DebZeroCase {
+				n := 350
+				if thorough {
+					n = 950
+				}
+				return DebZeroCase{Wait: s.Intn(3), Rounds: 50 + s.Intn(n)}
+			},
+			Prop: debZeroProp, OutOfEnum: func(DebZeroCase, bool) bool { return true },
+			Fixed:      []DebZeroCase{{0, 200}, {1, 200}, {2, 200}},
+			RapidQuick: 6, RapidThorough: 60,
 		},
 	)
 }
